@@ -316,10 +316,12 @@ def digitsVal : List Char → Nat → Option Nat
   | c :: rest, acc => if '0' ≤ c ∧ c ≤ '9' then digitsVal rest (acc * 10 + (c.toNat - 48)) else none
 
 /-- `str::parse::<u64>` -/
+def stripPlus : List Char → List Char
+  | [] => []
+  | c :: rest => if c = '+' then rest else c :: rest
+
 def parseU64 (cs : List Char) : Option Nat :=
-  let ds := match cs with
-    | '+' :: rest => rest
-    | _ => cs
+  let ds := stripPlus cs
   if ds.isEmpty then none
   else match digitsVal ds 0 with
     | some n => if n ≤ 18446744073709551615 then some n else none
